@@ -72,6 +72,7 @@ var methodTable = []mdesc{
 	{"m2", []pdesc{{"z", tInt, false}, {"b", tStr, false}}, kNormal},                        // + context
 	{"m3", []pdesc{{"z", tInt, false}, {"b", tStr, false}, {"c", tPInt, true}}, kNormal},    // optional tail
 	{"mo", []pdesc{{"z", tPInt, true}, {"b", tPInt, true}}, kNormal},                        // + context, all optional
+	{"mx", []pdesc{{"z", tStr, false}, {"b", tPInt, true}}, kNormal},                        // + context, optional tail of ANOTHER type than its neighbour
 	{"mc", []pdesc{{"l", tInts, false}, {"a", tInt, false}}, kNormal},                       // composite param
 	{"me", []pdesc{{"a", tInt, false}}, kErr},
 	{"mh", []pdesc{{"a", tInt, false}}, kHdr},
@@ -181,6 +182,10 @@ func newServer(h *harness, poolSize int) *jsonrpc.Server {
 		}},
 		jsonrpc.Method{Name: "mo", Params: T("mo"), Handler: func(ctx context.Context, z, b *int) (any, *jsonrpc.Error) {
 			h.rec(fmt.Sprintf("mo(%s%s,%s)", ctxS(ctx), pintS(z), pintS(b)))
+			return map[string]any{"z": z, "b": b}, nil
+		}},
+		jsonrpc.Method{Name: "mx", Params: T("mx"), Handler: func(ctx context.Context, z string, b *int) (any, *jsonrpc.Error) {
+			h.rec(fmt.Sprintf("mx(%s%s,%s)", ctxS(ctx), qS(z), pintS(b)))
 			return map[string]any{"z": z, "b": b}, nil
 		}},
 		jsonrpc.Method{Name: "mc", Params: T("mc"), Handler: func(l []int, a int) (any, *jsonrpc.Error) {
